@@ -201,7 +201,7 @@ Lemma tuned_cost_invalid_only_fee env tx s0 s gas round cap : block_sorted s -> 
   r_status (tuned_cost_invalid env tx s gas round cap) = StFail ->
   only_fee (t_payer tx) s0 (tuned_cost_invalid env tx s gas round cap).
 Proof.
-  intros BS SB. unfold tuned_cost_invalid. destruct (tune_fee _ _ _ _ _); [discriminate|].
+  intros BS SB. unfold tuned_cost_invalid.
   intro H. apply cost_invalid_only_fee; assumption.
 Qed.
 
@@ -220,8 +220,7 @@ Proof.
   - destruct ic; [|discriminate].
     destruct (get_balance s1 (t_payer tx)) as [new|]; [|intros _; apply nocharge_only_fee; exact SB].
     destruct (fee_lt_new new _); [apply tuned_cost_invalid_only_fee; assumption|].
-    destruct (tune_fee _ _ _ _ _) as [|g]; [discriminate|].
-    destruct (ong_transfer _ _ _ g s1) as [s2 [e|]] eqn:E; [|discriminate].
+    cbv zeta. destruct (ong_transfer _ _ _ _ s1) as [s2 [e|]] eqn:E; [|discriminate].
     apply charge_failed_only_fee. eapply same_block_trans; [exact SB|]. eapply ong_transfer_same_block; eauto.
 Qed.
 
@@ -323,16 +322,15 @@ Proof.
   assert (A1 : abs s1 = apply_layer (o_cache o) (abs_block s)) by reflexivity.
   destruct (o_internal o) eqn:Ei; [discriminate|].
   destruct (o_ok o) eqn:Ok; cbn [negb].
-  2:{ destruct (is_charge tx); [|discriminate]. unfold tuned_cost_invalid. destruct (tune_fee _ _ _ _ _); [discriminate|].
+  2:{ destruct (is_charge tx); [|discriminate]. unfold tuned_cost_invalid.
       unfold cost_invalid. destruct (ong_transfer _ _ _ _ _) as [f [[]|]]; discriminate. }
   intro H. exists o. split; [reflexivity|]. split; [exact Ok|]. split; [exact Ei|].
   unfold success_commits. revert H. destruct (is_charge tx).
   - destruct (get_balance s1 (t_payer tx)) as [new|]; [|discriminate].
     destruct (fee_lt_new new _).
-    { unfold tuned_cost_invalid. destruct (tune_fee _ _ _ _ _); [discriminate|].
+    { unfold tuned_cost_invalid.
       unfold cost_invalid. destruct (ong_transfer _ _ _ _ _) as [f [[]|]]; discriminate. }
-    destruct (tune_fee _ _ _ _ _) as [|g]; [discriminate|].
-    destruct (ong_transfer _ _ _ g s1) as [s2 [e|]] eqn:E; [destruct e; discriminate|].
+    cbv zeta. set (g := tune_fee _ _ _ _ _). destruct (ong_transfer _ _ _ g s1) as [s2 [e|]] eqn:E; [destruct e; discriminate|].
     intros _. destruct (ong_transfer_ok _ _ _ _ _ _ S1 E) as (S2 & [SBo SBs] & Cases).
     destruct (commit_cache_abs s2 S2) as (C1 & _ & C3 & C4 & _).
     cbn [r_state r_gas r_fee_events r_events]. split; [exact C1|]. split; [rewrite C3; exact SBs|].
@@ -391,7 +389,7 @@ Qed.
 Lemma tuned_cost_invalid_block_sorted env tx s a b c : block_sorted s ->
   block_sorted (r_state (tuned_cost_invalid env tx s a b c)).
 Proof.
-  intro BS. unfold tuned_cost_invalid. destruct (tune_fee _ _ _ _ _); [exact BS|apply cost_invalid_block_sorted; exact BS].
+  intro BS. unfold tuned_cost_invalid. apply cost_invalid_block_sorted; exact BS.
 Qed.
 
 Lemma exec_part_block_sorted env tx ip s ic avail clg old : block_sorted s -> interp_sorted ip ->
@@ -408,8 +406,7 @@ Proof.
   - destruct ic; [|apply sorted_block_sorted, cache_commit_sorted; exact S1].
     destruct (get_balance s1 (t_payer tx)) as [new|]; [|exact BS1].
     destruct (fee_lt_new new _); [apply tuned_cost_invalid_block_sorted; exact BS1|].
-    destruct (tune_fee _ _ _ _ _) as [|g]; [exact BS1|].
-    destruct (ong_transfer _ _ _ g s1) as [s2 [e|]] eqn:E.
+    cbv zeta. set (g := tune_fee _ _ _ _ _). destruct (ong_transfer _ _ _ g s1) as [s2 [e|]] eqn:E.
     + pose proof (ong_transfer_same_block _ _ _ _ _ _ _ E) as SB.
       destruct e; cbn [charge_failed r_state]; eapply block_sorted_same; eauto.
     + destruct (ong_transfer_ok _ _ _ _ _ _ S1 E) as (S2 & _ & _).
@@ -482,40 +479,36 @@ Lemma u64_lt x : u64 x < two64.
 Proof. unfold u64. apply N.mod_lt. discriminate. Qed.
 
 (** ** tuneGasFeeByHeight *)
-Lemma tune_fee_panic_iff h th gas round cap :
-  tune_fee h th gas round cap = TunePanic <-> (tune_active h th = true /\ round = 0).
-Proof.
-  unfold tune_fee. destruct (tune_active h th).
-  - destruct (N.eqb_spec round 0) as [->|Hr].
-    + split; [intros _; split; reflexivity|reflexivity].
-    + split; [|intros [_ E]; contradiction].
-      destruct (tune_overflow gas round); [discriminate|]. destruct (tune_over_cap _ _); discriminate.
-  - split; [discriminate|intros [E _]; discriminate].
-Qed.
+
+(** a zero rounding unit: the balance handed in (no division is attempted) *)
+Lemma tune_fee_zero_unit h th gas cap : tune_active h th = true -> tune_fee h th gas 0 cap = cap.
+Proof. unfold tune_fee. intros ->. reflexivity. Qed.
 
 (** once rounding is active the result never exceeds the balance handed in as the cap *)
-Lemma tune_fee_capped h th gas round cap g :
-  tune_active h th = true -> tune_fee h th gas round cap = TuneVal g -> g <= cap.
+Lemma tune_fee_capped h th gas round cap :
+  tune_active h th = true -> tune_fee h th gas round cap <= cap.
 Proof.
-  unfold tune_fee. intros ->. destruct (round =? 0); [discriminate|].
-  destruct (tune_overflow gas round); [intro E; injection E as <-; lia|].
-  unfold tune_over_cap. destruct (N.ltb_spec cap (tune_new round (tune_t gas round))); intro E; injection E as <-; lia.
+  unfold tune_fee. intros ->. unfold tune_round_zero, tune_zero_ret. destruct (round =? 0); [lia|].
+  destruct (tune_overflow gas round); [lia|].
+  unfold tune_over_cap. destruct (N.ltb_spec cap (tune_new round (tune_t gas round))); lia.
 Qed.
 
-Lemma tune_fee_inactive h th gas round cap : tune_active h th = false -> tune_fee h th gas round cap = TuneVal gas.
+Lemma tune_fee_inactive h th gas round cap : tune_active h th = false -> tune_fee h th gas round cap = gas.
 Proof. unfold tune_fee. intros ->. reflexivity. Qed.
 
 (** the rounded value: the cap, or the least multiple of [round] that is >= gas *)
-Lemma tune_fee_rounds h th gas round cap g : gas < two64 -> round < two64 ->
-  tune_active h th = true -> tune_fee h th gas round cap = TuneVal g ->
-  g = cap \/ (g mod round = 0 /\ gas <= g /\ g < gas + round /\ g <= cap).
+Lemma tune_fee_rounds h th gas round cap : gas < two64 -> round < two64 ->
+  tune_active h th = true ->
+  let g := tune_fee h th gas round cap in
+  g = cap \/ (round <> 0 /\ g mod round = 0 /\ gas <= g /\ g < gas + round /\ g <= cap).
 Proof.
-  intros Hg Hr. unfold tune_fee. intros ->. destruct (N.eqb_spec round 0) as [|Hr0]; [discriminate|].
-  unfold tune_overflow. destruct (N.ltb_spec (u64sub max_u64 round) gas); [intro E; injection E as <-; left; reflexivity|].
+  intros Hg Hr. unfold tune_fee. intros ->. cbv zeta. unfold tune_round_zero, tune_zero_ret.
+  destruct (N.eqb_spec round 0) as [|Hr0]; [left; reflexivity|].
+  unfold tune_overflow. destruct (N.ltb_spec (u64sub max_u64 round) gas); [left; reflexivity|].
   assert (Hsum : gas + round <= max_u64).
   { rewrite u64sub_le in H by (unfold max_u64, two64 in *; lia). unfold max_u64, two64 in *. lia. }
-  unfold tune_over_cap. destruct (N.ltb_spec cap (tune_new round (tune_t gas round))); intro E; injection E as <-; [left; reflexivity|].
-  right. unfold tune_new, tune_t in *.
+  unfold tune_over_cap. destruct (N.ltb_spec cap (tune_new round (tune_t gas round))); [left; reflexivity|].
+  right. split; [exact Hr0|]. unfold tune_new, tune_t in *.
   rewrite u64add_small in * by (unfold max_u64, two64 in *; lia).
   rewrite (u64sub_le (gas + round) 1) in * by (unfold max_u64, two64 in *; lia).
   unfold u64div in *. set (q := (gas + round - 1) / round) in *.
@@ -546,51 +539,31 @@ Proof. unfold fee_insuf_round, fee_ok_round, fee_fail_round, fee_min_gas. rewrit
 Lemma cost_invalid_req tx s g : r_req (cost_invalid tx s g) = Some g.
 Proof. unfold cost_invalid. destruct (ong_transfer _ _ _ _ _) as [f [[]|]]; reflexivity. Qed.
 
-(** a panic that is not the storage writer's is the division by zero in tuneGasFeeByHeight: the
-    transaction is charged, rounding is active at this height, and GasPrice*MIN_TRANSACTION_GAS = 0 *)
+(** the only panic left in the handler is the storage writer's ("too large token balance"), which
+    happens inside a charge: there is no panic without a charge request *)
 Lemma handle_invoke_panic env tx ip s :
-  r_status (handle_invoke env tx ip s) = StPanic -> r_req (handle_invoke env tx ip s) = None ->
-  is_charge tx = true /\ tune_active (e_height env) (e_tune env) = true /\ fee_fail_round (t_price tx) = 0.
+  r_status (handle_invoke env tx ip s) = StPanic -> r_req (handle_invoke env tx ip s) <> None.
 Proof.
-  assert (T : forall s' a b c, r_status (tuned_cost_invalid env tx s' a b c) = StPanic ->
-              r_req (tuned_cost_invalid env tx s' a b c) = None -> tune_active (e_height env) (e_tune env) = true /\ b = 0).
-  { intros s' a b c. unfold tuned_cost_invalid. destruct (tune_fee _ _ a b c) eqn:E.
-    - intros _ _. apply tune_fee_panic_iff in E. exact E.
-    - rewrite cost_invalid_req. discriminate. }
-  destruct (rounds_agree (t_price tx)) as (R1 & R2 & _).
-  unfold handle_invoke. fold (is_charge tx). destruct (is_charge tx) eqn:Ec.
+  unfold handle_invoke. destruct (negb (t_sys tx) && negb (t_price tx =? 0)).
   - destruct (e_codegas env); [|discriminate]. destruct (get_balance s _); [|discriminate].
     destruct (fee_lt_min _ _); [rewrite cost_invalid_req; discriminate|].
     destruct (fee_lt_code _ _ _); [rewrite cost_invalid_req; discriminate|].
     destruct (fee_lt_limit _ _); [rewrite cost_invalid_req; discriminate|].
     unfold exec_part. destruct (ip s _) as [o|]; [|discriminate]. destruct (o_internal o); [discriminate|].
-    destruct (negb (o_ok o)).
-    + intros A B. destruct (T _ _ _ _ A B) as [X Y]. auto.
-    + destruct (get_balance _ _); [|discriminate]. destruct (fee_lt_new _ _).
-      * intros A B. destruct (T _ _ _ _ A B) as [X Y]. rewrite R1 in Y. auto.
-      * destruct (tune_fee _ _ _ _ _) eqn:E.
-        -- intros _ _. apply tune_fee_panic_iff in E. destruct E as [X Y]. rewrite R2 in Y. auto.
-        -- destruct (ong_transfer _ _ _ _ _) as [s2 [[]|]]; discriminate.
+    destruct (negb (o_ok o)); [unfold tuned_cost_invalid; rewrite cost_invalid_req; discriminate|].
+    destruct (get_balance _ _); [|discriminate].
+    destruct (fee_lt_new _ _); [unfold tuned_cost_invalid; rewrite cost_invalid_req; discriminate|].
+    cbv zeta. destruct (ong_transfer _ _ _ _ _) as [s2 [[]|]]; discriminate.
   - unfold exec_part. destruct (ip s _) as [o|]; [|discriminate]. destruct (o_internal o); [discriminate|].
     destruct (negb (o_ok o)); discriminate.
 Qed.
 
-(** and it does panic: a charged transaction whose price is a multiple of 2^59 and whose script is
-    run (any outcome that is not an internal error, balance readable afterwards) *)
-Lemma exec_part_round_zero_panics env tx ip s avail clg old o :
-  tune_active (e_height env) (e_tune env) = true -> fee_fail_round (t_price tx) = 0 ->
-  ip s (fee_exec_gas avail clg) = Some o -> o_internal o = false ->
-  (o_ok o = true -> get_balance (mkState (o_cache o) (st_overlay s) (st_store s)) (t_payer tx) <> None) ->
-  r_status (exec_part env tx ip s true avail clg old) = StPanic.
-Proof.
-  intros A R E I B. destruct (rounds_agree (t_price tx)) as (R1 & R2 & _).
-  assert (P : forall a c, tune_fee (e_height env) (e_tune env) a 0 c = TunePanic).
-  { intros. apply tune_fee_panic_iff. auto. }
-  unfold exec_part. rewrite E, I. destruct (o_ok o); cbn [negb].
-  - destruct (get_balance _ _) as [new|]; [|exfalso; apply B; reflexivity].
-    unfold tuned_cost_invalid. rewrite R1, R2, R, !P. destruct (fee_lt_new _ _); reflexivity.
-  - unfold tuned_cost_invalid. rewrite R, P. reflexivity.
-Qed.
+(** a charged failing transaction whose rounding unit wrapped to 0 (GasPrice a multiple of 2^59) is
+    asked for the balance the handler read before execution *)
+Lemma round_zero_asks_balance env tx s gas cap :
+  tune_active (e_height env) (e_tune env) = true ->
+  tuned_cost_invalid env tx s gas 0 cap = cost_invalid tx s cap.
+Proof. intro A. unfold tuned_cost_invalid. rewrite tune_fee_zero_unit by exact A. reflexivity. Qed.
 
 (** * The amount asked for never exceeds what the payer has, when nothing wraps *)
 
@@ -655,24 +628,24 @@ Proof.
   assert (T : forall s' cap, cap <= old ->
      r_status (tuned_cost_invalid env tx s' costGas (fee_fail_round (t_price tx)) cap) = StFail ->
      r_req (tuned_cost_invalid env tx s' costGas (fee_fail_round (t_price tx)) cap) = Some g -> g <= old).
-  { intros s' cap Hcap. unfold tuned_cost_invalid. destruct (tune_fee _ _ _ _ cap) as [|g'] eqn:Et; [discriminate|].
+  { intros s' cap Hcap. unfold tuned_cost_invalid.
     rewrite cost_invalid_req. intros _ E; injection E as <-.
     destruct (tune_active (e_height env) (e_tune env)) eqn:Ea.
-    - pose proof (tune_fee_capped _ _ _ _ _ _ Ea Et). lia.
-    - rewrite tune_fee_inactive in Et by exact Ea. injection Et as <-. exact Hcost. }
+    - pose proof (tune_fee_capped _ _ costGas (fee_fail_round (t_price tx)) cap Ea). lia.
+    - rewrite tune_fee_inactive by exact Ea. exact Hcost. }
   destruct (rounds_agree (t_price tx)) as (R1 & R2 & _).
   destruct (o_internal o); [discriminate|]. destruct (o_ok o) eqn:Ok; cbv beta iota delta [negb].
   2:{ intros A B. left. apply (T _ _ (N.le_refl old) A B). }
   destruct (get_balance (mkState (o_cache o) (st_overlay s) (st_store s)) (t_payer tx)) as [new|] eqn:En; [|discriminate].
   unfold fee_lt_new, fee_insuf_gas, fee_insuf_cap. destruct (N.ltb_spec new costGas) as [|Hn].
   { rewrite R1. intros A B. left. apply (T _ _ (N.le_refl old) A B). }
-  unfold fee_ok_gas, fee_ok_cap. destruct (tune_fee _ _ _ _ new) as [|g'] eqn:Et; [discriminate|].
+  unfold fee_ok_gas, fee_ok_cap. cbv zeta. set (g' := tune_fee _ _ _ _ new).
   destruct (ong_transfer _ _ _ g' _) as [s2 [e|]]; [|discriminate].
   intros A B. right. exists (fee_exec_gas avail clg), o, new. split; [exact Eo|]. split; [exact Ok|]. split; [exact En|].
-  assert (g = g') by (destruct e; cbn [charge_failed r_req] in B; congruence). subst g'.
-  destruct (tune_active (e_height env) (e_tune env)) eqn:Ea.
-  - apply (tune_fee_capped _ _ _ _ _ _ Ea Et).
-  - rewrite tune_fee_inactive in Et by exact Ea. injection Et as <-. exact Hn.
+  assert (g = g') by (destruct e; cbn [charge_failed r_req] in B; congruence). subst g.
+  subst g'. destruct (tune_active (e_height env) (e_tune env)) eqn:Ea.
+  - apply tune_fee_capped; exact Ea.
+  - rewrite tune_fee_inactive by exact Ea. exact Hn.
 Qed.
 
 (** * The charge cannot fail when the payer signed, has the amount, and the records are sane *)
